@@ -22,7 +22,9 @@ CHECKS: dict[str, dict[str, str]] = {
                 "(LRU refinement to a recency list, capacity bound, key uniqueness, caller's globals always "
                 "bound, equality with the non-caching loader under auto-reload with freshness information, "
                 "stale answers only from an earlier load of the same key, namespace isolation); the model is "
-                "tied to the real loaders by exhaustive short and random long histories.",
+                "tied to the real loaders (dict, file system over one and two search paths, choice; direct loads, "
+                "loads from include / render, loads with a context argument and own globals) by exhaustive short "
+                "and random long histories.",
         "design_ref": "DESIGN.md §7 C14",
         "technique": "Coq proof (invariant + refinement by induction over operation lists) on a hand model; vm_compute correspondence against the real caching loaders",
     },
